@@ -41,7 +41,30 @@ CASES = {
     "negative_binomial": ((3.0, 0.4), 2.0, None),
     "zipf": ((2.5,), 3, lambda: -2.5 * math.log(3) - math.log(special.zeta(2.5, 1))),
 }
+# values at the EDGE of each support (the documented parameterisation decides whether they belong to it: geometric
+# counts failures, so 0 has mass p; a Poisson / binomial count may be 0; uniform includes its lower end)
+EDGES = [
+    ("geometric", (0.4,), 0, lambda: math.log(sig(0.4))),
+    ("poisson", (3.0,), 0.0, lambda: stats.poisson.logpmf(0, 3.0)),
+    ("binomial", (5.0, 0.4), 0.0, lambda: stats.binom.logpmf(0, 5, sig(0.4))),
+    ("binomial", (5.0, 0.4), 5.0, lambda: stats.binom.logpmf(5, 5, sig(0.4))),
+    ("exponential", (2.5,), 0.0, lambda: math.log(2.5)),
+    ("uniform", (-1.0, 3.0), -1.0, lambda: -math.log(4.0)),
+    ("flip", (0.3,), False, lambda: math.log(0.7)),
+    ("bernoulli", (0.4,), 0, lambda: stats.bernoulli.logpmf(0, sig(0.4))),
+    ("categorical", (jnp.array([0.1, 0.5, -0.2]),), 0, lambda: 0.1 - special.logsumexp([0.1, 0.5, -0.2])),
+    ("zipf", (2.5,), 1, lambda: -math.log(special.zeta(2.5, 1))),
+    ("half_normal", (2.0,), 0.0, lambda: stats.halfnorm.logpdf(0.0, scale=2.0)),
+]
 fails = []
+for name, args, v, oracle in EDGES:
+    try:
+        _, lp = parts(getattr(D, name))
+        got, want = float(lp(jnp.asarray(v), *args)), float(oracle())
+        if not abs(got - want) <= 1e-3 * (1 + abs(want)):
+            fails.append({"distribution": name, "args": str(args), "value_at_the_edge_of_the_support": str(v), "observed_logpdf": got, "required_logpdf": want})
+    except Exception as e:
+        fails.append({"distribution": name, "value": str(v), "observed": "raised %s: %s" % (type(e).__name__, str(e)[:150])})
 for name, (args, v, oracle) in CASES.items():
     ks, lp = parts(getattr(D, name))
     try:
